@@ -14,7 +14,13 @@
 (* setters accept a value only if its order is greater.                    *)
 (* Bug "StampAfterUpdate": the order is stamped on the stroke after the    *)
 (* open cells were updated (the pinned tree).  Bug "FirstRunWins": the     *)
-(* reader takes the first covering run.                                    *)
+(* reader takes the first covering run.  Bug "OrderBeforeBump": the order  *)
+(* of a new stroke is read before the layer's counter is advanced, so the  *)
+(* first stroke drawn on a document loaded from a file (whose counter      *)
+(* equals its latest order) ties with the latest existing stroke.          *)
+(* The document may start empty or PRELOADED (one stroke over the whole    *)
+(* line, counter = its order: what Numbers and the library itself leave    *)
+(* in a file), and may be Reopened from the file saved after any stroke.   *)
 (***************************************************************************)
 EXTENDS Integers, Sequences, FiniteSets, TLC
 CONSTANTS N, Values, MaxStrokes, Bug
@@ -49,18 +55,29 @@ SortByOrigin(rs) == IF rs = <<>> THEN <<>> ELSE
   IN Sort(rs)
 Stroke(o, len, v) ==
   /\ Len(hist) < MaxStrokes /\ o >= 1 /\ o + len - 1 <= N
-  /\ LET ord == maxOrder + 1
+  /\ LET ord == IF Bug = "OrderBeforeBump" THEN maxOrder ELSE maxOrder + 1
          p == PatchAll(runs, o, len, ord, v)
          setOrd == IF Bug = "StampAfterUpdate" THEN 0 ELSE ord           \* the order the open cells compare with
-     IN /\ maxOrder' = ord
+     IN /\ maxOrder' = maxOrder + 1
         /\ runs' = SortByOrigin(IF p[2] THEN p[1] ELSE Append(p[1], NewRun(o, len, ord, v)))
         /\ edge' = [i \in 1..N |-> IF i >= o /\ i < o + len THEN v ELSE edge[i]]
         /\ openv' = [i \in 1..N |-> IF i >= o /\ i < o + len /\ (openv[i].value = NoBorder \/ setOrd > openv[i].order)
                                       THEN [value |-> v, order |-> ord] ELSE openv[i]]
   /\ hist' = Append(hist, [o |-> o, len |-> len, v |-> v])
-Init == /\ edge = [i \in 1..N |-> NoBorder] /\ runs = <<>> /\ openv = [i \in 1..N |-> [value |-> NoBorder, order |-> 0]]
-        /\ maxOrder = 1 /\ hist = <<>>
-Next == \E o \in 1..N, len \in 1..N, v \in Values : Stroke(o, len, v)
+Empty == /\ edge = [i \in 1..N |-> NoBorder] /\ runs = <<>> /\ openv = [i \in 1..N |-> [value |-> NoBorder, order |-> 0]]
+         /\ maxOrder = 1 /\ hist = <<>>
+Preloaded(v0) == /\ edge = [i \in 1..N |-> v0] /\ runs = <<NewRun(1, N, 1, v0)>> /\ openv = [i \in 1..N |-> [value |-> v0, order |-> 1]]
+                 /\ maxOrder = 1 /\ hist = <<[o |-> 0, len |-> 0, v |-> v0]>>           \* o = 0: "the line came with this border"
+Init == Empty \/ \E v0 \in Values : Preloaded(v0)
+\* the document is loaded again from the file written after the last stroke: the open cells hold what the file shows, with the orders stored there
+OrderAt(rs, i) == LET cov == {k \in 1..Len(rs) : Covers(rs[k], i)} IN
+                  IF cov = {} THEN 0 ELSE rs[CHOOSE k \in cov : \A j \in cov : rs[k].order >= rs[j].order].order
+Reopen == /\ Len(hist) < MaxStrokes /\ hist # <<>> /\ hist[Len(hist)].v # "reopen"
+          /\ openv' = [i \in 1..N |-> [value |-> FileView(runs, i), order |-> OrderAt(runs, i)]]
+          /\ UNCHANGED <<edge, runs, maxOrder>>
+          /\ hist' = Append(hist, [o |-> 0, len |-> 0, v |-> "reopen"])
+Next == \/ \E o \in 1..N, len \in 1..N, v \in Values : Stroke(o, len, v)
+        \/ Reopen
 Spec == Init /\ [][Next]_vars
 NoHist == <<edge, runs, openv, maxOrder>>
 FileAgrees == \A i \in 1..N : FileView(runs, i) = edge[i]               \* the saved file shows the last writer
